@@ -22,6 +22,12 @@ type fakeHTTP struct {
 	// answerAfter > 0: read that many bytes of the request body, then close it
 	// and answer (a server that refuses an upload half way)
 	answerAfter int64
+	// endless: the body never ends by itself - after the scripted bytes come
+	// lines of filler until endlessCap bytes have been handed out, then a read
+	// error (the fake's patience, not an end of the answer). delivered counts
+	// the filler bytes handed out.
+	endless   bool
+	delivered int64
 	// started / returned count Do calls entered and left (read by the monitor
 	// while a caller may still be blocked)
 	started, returned int32
@@ -48,6 +54,27 @@ func (b *fakeBody) Read(p []byte) (int, error) {
 func (b *fakeBody) Close() error {
 	b.f.bodyClosed = true
 	return nil
+}
+
+// endlessCap is how much filler an endless body hands out before the fake
+// gives up: far beyond what a client needs to report a failing answer (net/http
+// itself drains at most 256 KiB of an unread body).
+const endlessCap = 8 << 20
+
+type endlessFiller struct{ f *fakeHTTP }
+
+func (e endlessFiller) Read(p []byte) (int, error) {
+	if atomic.LoadInt64(&e.f.delivered) >= endlessCap {
+		return 0, io.ErrUnexpectedEOF
+	}
+	for i := range p {
+		p[i] = 'x'
+		if i%80 == 79 {
+			p[i] = '\n'
+		}
+	}
+	atomic.AddInt64(&e.f.delivered, int64(len(p)))
+	return len(p), nil
 }
 
 // scriptDone: every Do the fake was given has returned.
@@ -82,6 +109,11 @@ func (f *fakeHTTP) Do(req *http.Request) (*http.Response, error) {
 	if f.chunk > 0 && h.Get("Content-Length") == "" {
 		cl, te = -1, []string{"chunked"}
 	}
+	var rd io.Reader = bytes.NewReader(f.body)
+	if f.endless {
+		rd = io.MultiReader(rd, endlessFiller{f})
+		cl, te = -1, []string{"chunked"}
+	}
 	return &http.Response{
 		TransferEncoding: te,
 		Status:           fmt.Sprintf("%d %s", f.status, http.StatusText(f.status)),
@@ -90,7 +122,7 @@ func (f *fakeHTTP) Do(req *http.Request) (*http.Response, error) {
 		ProtoMajor:       1,
 		ProtoMinor:       1,
 		Header:           h,
-		Body:             &fakeBody{r: bytes.NewReader(f.body), f: f},
+		Body:             &fakeBody{r: rd, f: f},
 		ContentLength:    cl,
 		Request:          req,
 	}, nil
